@@ -72,9 +72,42 @@ pub enum Edit {
 
 pub struct C15;
 
+/// The `mappings` member is a string like any other: mostly well-formed VLQ,
+/// sometimes arbitrary text (`SourceMap::new` takes any string, and a parsed
+/// document may carry any string there).
+fn gen_mappings(rng: &mut Rng) -> String {
+  match rng.below(8) {
+    0 => String::new(),
+    1 | 2 => "AAAA;;AACA,CAAC".to_string(),
+    3 => ";;;".to_string(),
+    4 => {
+      let mut s = String::from("AAAA");
+      s.push_str(&nasty_string(rng, 4));
+      s
+    }
+    5 => nasty_string(rng, 6),
+    _ => "AAAA".to_string(),
+  }
+}
+
 fn gen_value(rng: &mut Rng) -> MapSpec {
-  let ns = rng.usize_below(4);
-  let sources: Vec<String> = (0..ns).map(|_| nasty_string(rng, 5)).collect();
+  // 1 in 100: a table with more entries than an 8-bit index / a small inline
+  // table holds; 1 in 2000: more than 2^16
+  let many = |rng: &mut Rng| -> Option<usize> {
+    if rng.chance(10) {
+      Some(crate::gen::magic_count(rng, 10))
+    } else if rng.below(2000) == 0 {
+      Some(65_535 + rng.usize_below(4))
+    } else {
+      None
+    }
+  };
+  let ns = many(rng).unwrap_or_else(|| rng.usize_below(4));
+  let sources: Vec<String> = if ns > 8 {
+    (0..ns).map(|i| if i % 50 == 7 { nasty_string(rng, 3) } else { format!("s{}", i) }).collect()
+  } else {
+    (0..ns).map(|_| nasty_string(rng, 5)).collect()
+  };
   let sources_content: Vec<String> = match rng.below(5) {
     0 => vec![],
     1 => (0..ns).map(|_| String::new()).collect(),
@@ -93,18 +126,17 @@ fn gen_value(rng: &mut Rng) -> MapSpec {
     let i = rng.usize_below(sources_content.len());
     sources_content[i] = big;
   }
-  let nn = rng.usize_below(3);
+  let nn = many(rng).unwrap_or_else(|| rng.usize_below(3));
   let opt = |rng: &mut Rng| if rng.chance(400) { Some(nasty_string(rng, 4)) } else { None };
   MapSpec {
-    mappings: match rng.below(4) {
-      0 => String::new(),
-      1 => "AAAA;;AACA,CAAC".to_string(),
-      2 => ";;;".to_string(),
-      _ => "AAAA".to_string(),
-    },
+    mappings: gen_mappings(rng),
     sources,
     sources_content,
-    names: (0..nn).map(|_| nasty_string(rng, 4)).collect(),
+    names: if nn > 8 {
+      (0..nn).map(|i| if i % 50 == 9 { nasty_string(rng, 3) } else { format!("n{}", i) }).collect()
+    } else {
+      (0..nn).map(|_| nasty_string(rng, 4)).collect()
+    },
     file: opt(rng),
     source_root: opt(rng),
     debug_id: opt(rng),
@@ -114,7 +146,11 @@ fn gen_value(rng: &mut Rng) -> MapSpec {
 fn gen_raw(rng: &mut Rng) -> Doc {
   // build field list, then serialise by hand (order, nulls, unknown keys)
   let mut expect = MapSpec {
-    mappings: if rng.chance(500) { "AAAA;AACA".into() } else { String::new() },
+    mappings: match rng.below(10) {
+      0..=4 => "AAAA;AACA".into(),
+      5 => nasty_string(rng, 5),
+      _ => String::new(),
+    },
     sources: vec![],
     sources_content: vec![],
     names: vec![],
@@ -141,17 +177,25 @@ fn gen_raw(rng: &mut Rng) -> Doc {
     }
     Value::Array(v)
   };
+  // each table: an array (with null entries), missing, or `null` as a whole
+  // (a document with nulls; reads like a missing table)
   if rng.chance(700) {
     let v = arr(rng, &mut expect.sources);
     fields.push(("sources".into(), v));
+  } else if rng.chance(300) {
+    fields.push(("sources".into(), Value::Null));
   }
   if rng.chance(600) {
     let v = arr(rng, &mut expect.sources_content);
     fields.push(("sourcesContent".into(), v));
+  } else if rng.chance(300) {
+    fields.push(("sourcesContent".into(), Value::Null));
   }
   if rng.chance(600) {
     let v = arr(rng, &mut expect.names);
     fields.push(("names".into(), v));
+  } else if rng.chance(300) {
+    fields.push(("names".into(), Value::Null));
   }
   for (key, slot) in [("file", 0), ("sourceRoot", 1), ("debugId", 2)] {
     match rng.below(4) {
@@ -733,6 +777,19 @@ impl Property for C15Prop {
         }
         for which in 0..3 {
           let len = [s.sources.len(), s.sources_content.len(), s.names.len()][which];
+          if len > 16 {
+            // long tables: drop one half at a time
+            for (lo, hi) in [(len / 2, len), (0, len / 2), (len - 1, len)] {
+              let mut c = s.clone();
+              match which {
+                0 => drop(c.sources.drain(lo..hi)),
+                1 => drop(c.sources_content.drain(lo..hi)),
+                _ => drop(c.names.drain(lo..hi)),
+              }
+              cands.push(c);
+            }
+            continue;
+          }
           for i in 0..len {
             let mut c = s.clone();
             match which {
@@ -777,7 +834,7 @@ impl Property for C15Prop {
     (serde_json::to_value(&cur).unwrap(), from)
   }
   fn rule(&self) -> String {
-    "case = (document, writer plan, reader plan, fault offsets) from splitmix(VERIF_SEED, run index). 65% SourceMap values (30% of them with a setter history: the value, a clone and its Debug form are serialised once, then 1-3 setters are applied and the pipeline runs on the edited value) with strings over quotes, backslashes, C0 controls, DEL, U+2028/2029, BOM, 2-4-byte characters, optional fields present/absent, all-empty vs partly empty sourcesContent; 35% hand-serialised documents with nulls, missing arrays, shuffled and unknown keys, whitespace. Pipeline: to_json -> independent serde_json check; to_writer through a fragmenting/EINTR writer -> file F must equal to_json byte for byte; from_json, from_slice, from_reader(fragmenting reader) must give the same fields; hard write error at k -> Err and F is the k-byte prefix; crash-truncation at k and hard read error at k -> Err, never Ok, never panic (k sampled in quick, every k in 10% of runs and in thorough; 1.5% of the values carry an 8-140 KiB sourcesContent entry, for which the offsets around 8 KiB / 64 KiB / 128 KiB boundaries are added). distinct_nontrivial = distinct documents with at least one non-default field.".into()
+    "case = (document, writer plan, reader plan, fault offsets) from splitmix(VERIF_SEED, run index). 65% SourceMap values (30% of them with a setter history: the value, a clone and its Debug form are serialised once, then 1-3 setters are applied and the pipeline runs on the edited value) with strings over quotes, backslashes, C0 controls, DEL, U+2028/2029, BOM, 2-4-byte characters, optional fields present/absent, all-empty vs partly empty sourcesContent, a mappings member that is arbitrary text instead of VLQ in 25% of the values, tables of 31 .. 1028 entries (count next to a power of two) in 1% and of 65 535 .. 65 538 entries in 0.05% of the values; 35% hand-serialised documents with null entries, null tables, missing arrays, shuffled and unknown keys, whitespace. Pipeline: to_json -> independent serde_json check; to_writer through a fragmenting/EINTR writer -> file F must equal to_json byte for byte; from_json, from_slice, from_reader(fragmenting reader) must give the same fields; hard write error at k -> Err and F is the k-byte prefix; crash-truncation at k and hard read error at k -> Err, never Ok, never panic (k sampled in quick, every k in 10% of runs and in thorough; 1.5% of the values carry an 8-140 KiB sourcesContent entry, for which the offsets around 8 KiB / 64 KiB / 128 KiB boundaries are added). distinct_nontrivial = distinct documents with at least one non-default field.".into()
   }
   fn assumptions(&self) -> Vec<String> {
     vec![
